@@ -64,7 +64,7 @@ theorem C10_kinds (shape : Shape) (s : Int) (b : Body) :
 /-- the switch never yields a decode or transport error, and a decode error only comes with 2xx -/
 theorem C10_decode_only_2xx (shape : Shape) (s : Int) (b : Body) (e : Err)
     (h : (call shape (.resp s b)).err = some e) (hk : e.kind = .decode) :
-    (200 ≤ s ∧ s < 300) ∧ shape ≠ .none ∧ (b = .malformed ∨ b = .wrongtype) := by
+    (200 ≤ s ∧ s < 300) ∧ shape ≠ .none ∧ (b = .malformed ∨ b = .wrongtype ∨ b = .broken) := by
   by_cases h2 : 200 ≤ s ∧ s < 300
   · rw [call_2xx shape s b h2] at h
     cases shape <;> cases b <;> simp_all [tail, decodeOf]
